@@ -13,6 +13,14 @@ if ! RUSTFLAGS="-Zsanitizer=address -C debug-assertions=on -C overflow-checks=of
      --target-dir /verif/target/asan >"$LOG" 2>&1; then
   echo "BUILD FAILED (sanitizer build of the checks or of /repo)" >&2; tail -40 "$LOG" >&2; exit 2
 fi
+# one worker per vaporetto feature subset, compiled with debug assertions (sub-check
+# feature-configurations); a replay uses whatever set was built last
+wt=quick; [ "${1:-}" = "thorough" ] && wt=thorough
+if [ "${1:-}" = "--replay" ] && [ -f /verif/target/workers-checked/bin/list.txt ] && [ "$(wc -l < /verif/target/workers-checked/bin/list.txt)" -gt 7 ]; then wt=thorough; fi
+if ! /verif/tools/build_workers.sh $wt checked >"$LOG" 2>&1; then
+  echo "BUILD FAILED (C18 checked workers)" >&2; tail -40 "$LOG" >&2; exit 2
+fi
+cd /verif/harness || exit 2
 BIN=/verif/target/asan/x86_64-unknown-linux-gnu/release/vcheck
 export ASAN_OPTIONS=exitcode=99:detect_leaks=0:abort_on_error=0
 normal() { [ "$1" -eq 0 ] || [ "$1" -eq 1 ] || [ "$1" -eq 2 ]; }
